@@ -115,13 +115,16 @@ func canonErr(e grammar.VerifError) string {
 	if i := strings.Index(e.Prefix, ": rule "); i >= 0 {
 		rule = e.Prefix[i+len(": rule "):]
 	}
+	// the parser's own sentinel errors are recognised by identity (hook), not by their wording
 	switch {
-	case e.Msg == "max number of expresssions parsed":
+	case e.Kind == "max":
 		return "max"
 	case strings.HasPrefix(e.Msg, "no match found"):
 		return "nomatch"
-	case e.Msg == "invalid encoding":
+	case e.Kind == "enc":
 		return fmt.Sprintf("%d:%s:enc", e.Offset, hx(rule))
+	case e.Kind == "norule":
+		return "norule"
 	case strings.HasPrefix(e.Msg, "undefined rule: "):
 		return fmt.Sprintf("%d:%s:undef=%s", e.Offset, hx(rule), strings.TrimPrefix(e.Msg, "undefined rule: "))
 	case strings.HasPrefix(e.Msg, "interface conversion:"), strings.HasPrefix(e.Msg, "runtime error:"),
